@@ -2,6 +2,7 @@ pub mod c09;
 pub mod c10;
 pub mod c19;
 pub mod conc;
+pub mod evict;
 pub mod stress;
 pub mod hist_family;
 
@@ -9,5 +10,10 @@ use crate::engine::{Accum, Ctx};
 
 /// socket-level phase of C09 (filled in by the L3 layer)
 pub fn c09_l3_hook(_ctx: &Ctx, _acc: &Accum) -> Option<i32> {
+    None
+}
+
+/// concurrent phase of C14 (L2 programs of stores under eviction)
+pub fn c14_l2_hook(_ctx: &Ctx, _acc: &Accum) -> Option<i32> {
     None
 }
